@@ -61,7 +61,7 @@ func (f *FieldUpdater) Merge(dst, src proto.Message) {
 
 	var writableMask fmutils.NestedMask
 	if f.writableFields != nil {
-		writableMask = fmutils.NestedMaskFromPaths(f.writableFields.Paths)
+		writableMask = fmutils.NestedMaskFromPaths(normalizedPaths(f.writableFields))
 	}
 
 	// only allow writing writable fields by resetting non-writable fields in src
@@ -82,7 +82,7 @@ func (f *FieldUpdater) Merge(dst, src proto.Message) {
 		return
 	}
 
-	nestedMask := fmutils.NestedMaskFromPaths(mask.GetPaths())
+	nestedMask := fmutils.NestedMaskFromPaths(normalizedPaths(mask))
 	nestedMask.Filter(src)
 	proto.Merge(dst, src)
 
@@ -90,7 +90,7 @@ func (f *FieldUpdater) Merge(dst, src proto.Message) {
 	pruneEmpty(dst, src, nestedMask)
 
 	if f.resetMask != nil {
-		fmutils.Prune(dst, f.resetMask.Paths)
+		fmutils.Prune(dst, normalizedPaths(f.resetMask))
 	}
 
 	return
@@ -190,4 +190,11 @@ func WithResetMask(resetMask *fieldmaskpb.FieldMask) FieldUpdaterOption {
 // WithResetPaths is like WithResetMask but accepts paths.
 func WithResetPaths(paths ...string) FieldUpdaterOption {
 	return WithResetMask(&fieldmaskpb.FieldMask{Paths: paths})
+}
+
+// normalizedPaths returns the paths of mask without duplicates or paths already covered by a parent path.
+// A field mask denotes a set of fields, but fmutils.NestedMask gives a child path precedence over its parent,
+// so ["a", "a.b"] would otherwise select only a.b instead of all of a.
+func normalizedPaths(mask *fieldmaskpb.FieldMask) []string {
+	return fieldmaskpb.Union(mask, nil).GetPaths()
 }
